@@ -1,0 +1,13 @@
+//go:build verif
+
+package yubiagent
+
+import "github.com/theparanoids/ysshra/agent/shimagent"
+
+// VerifNewServer builds the concrete yubiagent server around an existing shim
+// agent and an explicit PIV tool path. It is NewServer without the socket dial
+// and the PATH lookup, and exists only for the simulation harness (build tag
+// "verif").
+func VerifNewServer(shim shimagent.ShimAgent, pivToolPath string, remote bool) YubiAgent {
+	return &server{shim, pivToolPath, remote}
+}
